@@ -98,7 +98,7 @@ func cmdCheck(args []string) {
 		seed, _ = strconv.Atoi(s)
 	}
 	t0 := time.Now()
-	timeout := 100 * time.Second
+	timeout := 180 * time.Second
 	if *tier == "thorough" {
 		timeout = 300 * time.Second
 	}
